@@ -28,7 +28,7 @@ ASSUMPTIONS = [
     "template_cache_size=None through settings falls back to 128 (observation, not asserted)",
     "one Engine instance per engine class (cache key uses the engine class path)",
 ]
-BOUNDS = {"quick": {"dfs_len": 5, "hyp_examples": 1500}, "thorough": {"dfs_len": 7, "hyp_examples": 40000}}
+BOUNDS = {"quick": {"dfs_len": 5, "hyp_examples": 6000}, "thorough": {"dfs_len": 7, "hyp_examples": 40000}}
 
 KEYS = ["a", "b", "c"]
 SIZES = [None, 0, 1, 2, 3]
